@@ -25,6 +25,8 @@ ASSUMPTIONS = ["only index-preserving forms are treated as the same thing (the n
 
 R = "#/components/schemas/"
 POS = ["prop", "item", "addl", "union", "param", "body", "resp", "root"]
+# positions where ONE schema object of the document is turned into generated code several times
+SHARED_POS = ["pathitem-param", "comp-param", "comp-resp", "comp-resp-2status", "comp-body"]
 NULL_KINDS = ["str", "int", "num", "bool", "date", "datetime", "uuid", "model_ref", "enum_ref", "inline_object", ["array", "str"], ["array", "model_ref"]]
 
 
@@ -50,7 +52,50 @@ def holder(pos, sch, comps, required=False):
     elif pos == "root":
         comps["M"] = sch
         comps["User"] = {"type": "object", "properties": {"m": {"$ref": R + "M"}}}
+    elif pos in SHARED_POS:
+        none = {"204": {"description": "n"}}
+        extra = {}
+        if pos == "pathitem-param":
+            paths["/x"] = {"parameters": [{"name": "p", "in": "query", "required": required, "schema": sch}],
+                           "get": {"operationId": "opA", "responses": none}, "put": {"operationId": "opB", "responses": none},
+                           "post": {"operationId": "opC", "responses": none}}
+        elif pos == "comp-param":
+            extra["parameters"] = {"Shared": {"name": "p", "in": "query", "required": required, "schema": sch}}
+            use = [{"$ref": "#/components/parameters/Shared"}]
+            paths["/x"] = {"get": {"operationId": "opA", "parameters": use, "responses": none}, "post": {"operationId": "opB", "parameters": use, "responses": none}}
+            paths["/y"] = {"get": {"operationId": "opC", "parameters": use, "responses": none}}
+        elif pos in ("comp-resp", "comp-resp-2status"):
+            extra["responses"] = {"Shared": {"description": "d", "content": {"application/json": {"schema": sch}}}}
+            use = {"$ref": "#/components/responses/Shared"}
+            first = {"200": use, "201": use} if pos == "comp-resp-2status" else {"200": use}
+            paths["/x"] = {"get": {"operationId": "opA", "responses": first}, "post": {"operationId": "opB", "responses": {"200": use}}}
+            paths["/y"] = {"get": {"operationId": "opC", "responses": {"200": use}}}
+        else:
+            extra["requestBodies"] = {"Shared": {"required": True, "content": {"application/json": {"schema": sch}}}}
+            use = {"$ref": "#/components/requestBodies/Shared"}
+            paths["/x"] = {"put": {"operationId": "opA", "requestBody": use, "responses": none}, "post": {"operationId": "opB", "requestBody": use, "responses": none}}
+            paths["/y"] = {"post": {"operationId": "opC", "requestBody": use, "responses": none}}
+        doc = gen.base_doc(comps or None, paths=paths)
+        doc.setdefault("components", {}).update(extra)
+        return doc
     return gen.base_doc(comps or None, paths=paths)
+
+
+# 3.0 `nullable` next to BOTH a type and a composition keyword: the 3.1 spelling is the type list, the composition is untouched
+COMPOSITES = {
+    "typed-allof-ref": {"type": "object", "allOf": [{"$ref": R + "Obj"}]},
+    "typed-allof-inline": {"type": "object", "allOf": [{"type": "object", "properties": {"a": {"type": "integer"}}}], "properties": {"b": {"type": "string"}}},
+    "typed-allof-two": {"type": "object", "allOf": [{"$ref": R + "Obj"}, {"type": "object", "properties": {"b": {"type": "string"}}}]},
+    "typed-oneof": {"type": "object", "oneOf": [{"$ref": R + "Obj"}, {"$ref": R + "Obj2"}]},
+    "typed-anyof": {"type": "object", "anyOf": [{"$ref": R + "Obj"}, {"$ref": R + "Obj2"}]},
+    "typed-oneof-scalar": {"type": "string", "oneOf": [{"type": "string", "format": "date"}, {"type": "string", "format": "uuid"}]},
+}
+COMPOSITE_COMPS = {"Obj": {"type": "object", "properties": {"z": {"type": "integer"}}}, "Obj2": {"type": "object", "required": ["y"], "properties": {"y": {"type": "string"}}}}
+
+
+def composite_forms(name):
+    inner = COMPOSITES[name]
+    return {"t30": dict(copy.deepcopy(inner), nullable=True), "t31": dict(copy.deepcopy(inner), type=[inner["type"], "null"])}
 
 
 def null_forms(kind):
@@ -74,10 +119,10 @@ def null_forms(kind):
 
 def enum_null_forms(values, typ):
     base = {"type": typ, "enum": list(values)}
-    return {
-        "enum-null-31": {"type": [typ, "null"], "enum": list(values) + [None]},
-        "enum-null-untyped": {"enum": list(values) + [None]},
+    return {    # the explicit union is the reference spelling: every other notation is compared with it
         "explicit-union": {"oneOf": [{"type": "null"}, copy.deepcopy(base)]},
+        "enum-null-untyped": {"enum": list(values) + [None]},
+        "enum-null-31": {"type": [typ, "null"], "enum": list(values) + [None]},
     }
 
 
@@ -123,17 +168,26 @@ def cases(tier):
             for req in ((False, True) if pos in ("prop", "param") else (False,)):
                 yield {"labels": [f"rewrite=nullable", f"kind={K.kstr(kind)}", f"pos={pos}"] + (["req"] if req else []),
                        "payload": {"mode": "nullable", "kind": kind, "pos": pos, "required": req}}
+        for pos in SHARED_POS:
+            if pos.endswith("-param") and K.kstr(kind) in ("model_ref", "inline_object", "array(model_ref)"):
+                continue
+            yield {"labels": ["rewrite=nullable", f"kind={K.kstr(kind)}", f"pos={pos}"], "payload": {"mode": "nullable", "kind": kind, "pos": pos, "required": False}}
+    for name in COMPOSITES:
+        for pos in POS + ["comp-resp", "comp-body"]:
+            if pos == "param":
+                continue
+            yield {"labels": ["rewrite=nullable", f"kind={name}", f"pos={pos}"], "payload": {"mode": "nullable-composite", "name": name, "pos": pos}}
     # enum with null
     for typ, values in (("string", ["a", "b"]), ("integer", [1, 2]), ("string", ["only"])):
-        for pos in POS:
+        for pos in POS + SHARED_POS:
             for lit in (False, True):
                 yield {"labels": ["rewrite=enum-null", f"type={typ}", f"n={len(values)}", f"pos={pos}"] + (["literal_enums"] if lit else []),
                        "payload": {"mode": "enum-null", "type": typ, "values": values, "pos": pos, "literal_enums": lit}}
     # single-element wrappers
     for target in WRAP_TARGETS:
-        for pos in POS:
+        for pos in POS + SHARED_POS:
             for req in ((False, True) if pos in ("prop", "param") else (False,)):
-                if pos == "param" and target in ("Obj", "Arr"):
+                if pos.endswith("param") and target in ("Obj", "Arr"):
                     continue
                 if pos == "root":
                     continue      # a component that is itself a bare $ref is not supported: not an equivalent notation
@@ -234,6 +288,10 @@ def run_case(p):
         for n, sch in forms.items():
             variants[n] = gen.generate(holder(p["pos"], sch, copy.deepcopy(comps), p["required"]))
         key = f"nullable/{K.kstr(p['kind'])}/{p['pos']}"
+    elif mode == "nullable-composite":
+        for n, sch in composite_forms(p["name"]).items():
+            variants[n] = gen.generate(holder(p["pos"], sch, copy.deepcopy(COMPOSITE_COMPS)))
+        key = f"nullable/{p['name']}/{p['pos']}"
     elif mode == "nullable2":
         forms, comps = null_forms(p["kind"])
         for n, sch in forms.items():
